@@ -1,6 +1,7 @@
 CONSTANT NOps = 2
 CONSTANT SharedScratch = TRUE
 CONSTANT AllThirds = FALSE
+CONSTANT NtcFirst3 = {2, 8}
 INIT Init
 NEXT Next
 INVARIANT OwnContent
